@@ -383,6 +383,75 @@ func sharedBufferPhase(s *server, u upstream.Upstream) {
 	}
 }
 
+// optionVariants: the same server reached through udp upstreams created with
+// every option NewUpstream accepts — those documented as meaningless for plain
+// UDP (socks5, pipelining, http3, bootstrap with an IP address) and dial_addr
+// spellings of the server's own address. None of them may change where the
+// query or its TCP retry goes: the harness server must see the UDP query and,
+// for TC replies, the TCP retry; a recorder standing in for the "other host"
+// (the socks5 address) must see nothing.
+func optionVariants(s *server, rng *rand.Rand) {
+	rec, err := net.Listen("tcp", "127.0.0.1:0")
+	if err != nil {
+		rep.Inconclusive("option variants: cannot listen: %v", err)
+		return
+	}
+	defer rec.Close()
+	var recConns atomic.Int64
+	go func() {
+		for {
+			c, err := rec.Accept()
+			if err != nil {
+				return
+			}
+			recConns.Add(1)
+			c.Close()
+		}
+	}()
+	host, _, _ := net.SplitHostPort(s.addr)
+	variants := []struct {
+		name string
+		opt  upstream.Opt
+	}{
+		{"socks5", upstream.Opt{Socks5: rec.Addr().String()}},
+		{"dial_addr=same", upstream.Opt{DialAddr: s.addr}},
+		{"dial_addr=host-only", upstream.Opt{DialAddr: host}},
+		{"enable_pipeline", upstream.Opt{EnablePipeline: true}},
+		{"enable_http3", upstream.Opt{EnableHTTP3: true}},
+		{"idle_timeout", upstream.Opt{IdleTimeout: time.Second}},
+		{"bootstrap", upstream.Opt{Bootstrap: rec.Addr().String()}},
+		{"everything", upstream.Opt{Socks5: rec.Addr().String(), DialAddr: s.addr, EnablePipeline: true, EnableHTTP3: true, IdleTimeout: time.Second, Bootstrap: rec.Addr().String()}},
+	}
+	pads := []int{0, 50, 1100}
+	for _, v := range variants {
+		u, err := upstream.NewUpstream("udp://"+s.addr, v.opt)
+		if err != nil {
+			// refusing an option outright is not a silent redirection
+			rep.Count("option_variant_refused_at_creation:"+v.name, 1)
+			continue
+		}
+		before := recConns.Load()
+		for i := 0; i < rep.Pick(48, 400); i++ {
+			f := uint16(rng.Intn(65536))
+			if i%2 == 0 {
+				f |= 0x0200
+			} else {
+				f &^= 0x0200
+			}
+			c := &caseT{Seq: int(seqCtr.Add(1)), Flags: f, Pad: pads[rng.Intn(len(pads))], TCPMode: "answer", ID: uint16(rng.Intn(65536))}
+			caselog.Log(map[string]any{"option_variant": v.name, "case": c})
+			runCase(s, u, c)
+			rep.Count("option_variant_cases:"+v.name, 1)
+		}
+		u.Close()
+		if n := recConns.Load() - before; n > 0 {
+			rep.Violation("tcp-went-to-another-host-option-"+v.name, fmt.Sprintf("udp upstream created with option %s opened %d TCP connection(s) to %s, which is not the server (%s)", v.name, n, rec.Addr(), s.addr), map[string]any{"option": v.name, "server": s.addr, "other_host": rec.Addr().String()})
+		} else {
+			rep.Nontrivial("option-variant|" + v.name)
+		}
+	}
+}
+
 func trunc(b []byte, n int) []byte {
 	if len(b) > n {
 		return b[:n]
@@ -478,6 +547,7 @@ func main() {
 	close(jobs)
 	wg.Wait()
 	sharedBufferPhase(servers["answer"], ups["answer"])
+	optionVariants(servers["answer"], rng)
 	for _, u := range ups {
 		u.Close()
 	}
